@@ -34,12 +34,13 @@ type RewardShadow struct {
 	Received sdk.Coins // total forwarded to the pool (mod -> pool)
 	Paid     sdk.Coins // total paid by the pool
 	Stranded sdk.Coins
+	OverRound map[string]*big.Rat // the part of Overpaid that lies within the 18-digit resolution (index round-up)
 	Overpaid map[string]*big.Rat // per reward denom: what claims of value-changed positions were paid beyond their exact entitlement
 }
 
 func (r *Runner) rewardShadow() *RewardShadow {
 	if r.Rw == nil {
-		r.Rw = &RewardShadow{R: r, E: map[PosKey]map[string]*big.Rat{}, Q: map[PosKey]map[string]*big.Rat{}, N: map[PosKey]int{}, Vmin: map[PosKey]*big.Rat{}, Vmax: map[PosKey]*big.Rat{}, Taint: map[PosKey]string{}, lastIdx: -1, Received: sdk.NewCoins(), Paid: sdk.NewCoins(), Stranded: sdk.NewCoins(), Overpaid: map[string]*big.Rat{}}
+		r.Rw = &RewardShadow{R: r, E: map[PosKey]map[string]*big.Rat{}, Q: map[PosKey]map[string]*big.Rat{}, N: map[PosKey]int{}, Vmin: map[PosKey]*big.Rat{}, Vmax: map[PosKey]*big.Rat{}, Taint: map[PosKey]string{}, lastIdx: -1, Received: sdk.NewCoins(), Paid: sdk.NewCoins(), Stranded: sdk.NewCoins(), Overpaid: map[string]*big.Rat{}, OverRound: map[string]*big.Rat{}}
 	}
 	return r.Rw
 }
@@ -113,7 +114,7 @@ func (rs *RewardShadow) attribute(s *Snap, now time.Time, val string, W sdk.Coin
 	}
 }
 
-func (rs *RewardShadow) noteOverpaid(pk PosKey, paid sdk.Coins) {
+func (rs *RewardShadow) noteOverpaid(pk PosKey, paid sdk.Coins, v *big.Rat) {
 	for _, c := range paid {
 		e := rs.E[pk][c.Denom]
 		if e == nil {
@@ -123,8 +124,17 @@ func (rs *RewardShadow) noteOverpaid(pk PosKey, paid sdk.Coins) {
 		if over.Sign() > 0 {
 			if rs.Overpaid[c.Denom] == nil {
 				rs.Overpaid[c.Denom] = new(big.Rat)
+				rs.OverRound[c.Denom] = new(big.Rat)
 			}
 			rs.Overpaid[c.Denom].Add(rs.Overpaid[c.Denom], over)
+			// the part explained by the 18-digit resolution of the index on this position's tokens and on
+			// the reward amounts themselves
+			lim := new(big.Rat).Mul(v, big.NewRat(int64(rs.N[pk]+3), 1_000_000_000_000_000_000))
+			lim.Add(lim, new(big.Rat).Mul(ratInt(c.Amount), big.NewRat(int64(rs.N[pk]+3)*4, 1_000_000_000_000_000_000)))
+			lim.Add(lim, ratI64(1))
+			if over.Cmp(lim) <= 0 {
+				rs.OverRound[c.Denom].Add(rs.OverRound[c.Denom], over)
+			}
 		}
 	}
 }
@@ -193,9 +203,7 @@ func (rs *RewardShadow) ProcessTx(o *TxOutcome) []claimObs {
 			_, existed := o.Pre.Dels[pk]
 			obs := claimObs{Pos: pk, Coins: c.Coins, E: rs.E[pk], Q: rs.Q[pk], N: rs.N[pk], Taint: rs.Taint[pk], Vmin: rs.Vmin[pk], Vmax: rs.Vmax[pk], Value: o.Pre.Value(pk), Exists: existed}
 			rs.lastClaims = append(rs.lastClaims, obs)
-			if obs.Taint != "" {
-				rs.noteOverpaid(pk, c.Coins)
-			}
+			rs.noteOverpaid(pk, c.Coins, obs.Value)
 			if dbg := os.Getenv("VMON_DEBUG_POS"); dbg != "" && strings.Contains(rs.R.W.Name(pk.Del)+","+rs.R.W.Name(pk.Val)+","+pk.Denom, dbg) {
 				fmt.Printf("  CLAIM step %d %s pos %s paid %s\n", o.Idx, o.Step.K, dbg, c.Coins)
 			}
@@ -273,7 +281,7 @@ func (rs *RewardShadow) ProcessBlock(o *BlockOutcome) {
 				continue
 			}
 			if ci < len(s.Ev.Claims) && s.Ev.Claims[ci].Delegator == ix.Del && s.Ev.Claims[ci].Validator == ix.Dst {
-				rs.noteOverpaid(pk, s.Ev.Claims[ci].Coins)
+				rs.noteOverpaid(pk, s.Ev.Claims[ci].Coins, s.Pre.Value(pk))
 				ci++
 			}
 			rs.settle(pk)
@@ -750,12 +758,20 @@ func (m *MonC12) classify(s *Snap, msg string) (string, string) {
 	for _, pk := range s.DelOrder {
 		res.Add(res, new(big.Rat).Mul(s.Value(pk), big.NewRat(int64(m.rs.N[pk]+3), 1_000_000_000_000_000_000)))
 	}
+	// the reward amounts themselves are multiplied by 18-digit weights: absolute error ~1e-18 x amount per
+	// asset and receipt
+	flows := new(big.Rat).Add(ratInt(want), ratInt(have))
+	flows.Add(flows, ratInt(s.BalOf(w.PoolAddr, denom)))
+	res.Add(res, new(big.Rat).Mul(flows, big.NewRat(int64(len(s.AssetOrder)+1)*10, 1_000_000_000_000_000_000)))
 	res.Add(res, ratI64(int64(len(s.DelOrder))+1))
 	pool := ratInt(s.BalOf(w.PoolAddr, denom))
 	excess := new(big.Rat).Sub(sumQ, pool)
 	covered := new(big.Rat).Add(pool, res)
 	if op := m.rs.Overpaid[denom]; op != nil {
 		covered.Add(covered, op)
+		if op.Sign() > 0 && m.R.Sh.SlashCount > 0 {
+			inflated = true // claims inflated by an earlier slash were already paid out of this pool
+		}
 	}
 	if os.Getenv("VMON_DEBUG") != "" {
 		fmt.Printf("C12 classify %s: have %s want %s shortfall %s sumE %s sumQ %s pool %s excess %s res %s inflated %v slashes %d\n", denom, have, want, ratStr(shortfall), ratStr(sumE), ratStr(sumQ), ratStr(pool), ratStr(excess), ratStr(res), inflated, m.R.Sh.SlashCount)
@@ -791,7 +807,11 @@ func (m *MonC12) classify(s *Snap, msg string) (string, string) {
 			return "rounder-overclaim", fmt.Sprintf("pool of %s short by %s: a position worth just under a whole number of tokens claims with its reported value (exact value + 0.01 rounded down), up to %s relatively more than the index was computed for", denom, ratStr(shortfall), maxRel.FloatString(6))
 		}
 	}
-	if shortfall.Cmp(res) <= 0 && res.Cmp(ratI64(int64(len(s.DelOrder))+2)) > 0 {
+	resAll := new(big.Rat).Set(res)
+	if or := m.rs.OverRound[denom]; or != nil {
+		resAll.Add(resAll, or) // round-ups already paid out earlier left the pool that much short
+	}
+	if shortfall.Cmp(resAll) <= 0 && res.Cmp(ratI64(int64(len(s.DelOrder))+2)) > 0 {
 		return "index-round-up", fmt.Sprintf("pool of %s short by %s, within the 18-digit resolution of the reward index on the staked totals (%s)", denom, ratStr(shortfall), ratStr(res))
 	}
 	return "", ""
